@@ -160,6 +160,73 @@ theorem parseCn_safe (parseI : Str → Option Int) (parseF : Str → Bool) (isDt
     | exact absurd (by assumption) (pq_not_panic _ _ (parseQualifiers_safe _ _ _ (arg_facts _ _ _ _ _ (by assumption)).1))
     | exact absurd (by assumption) (pq_not_panic _ _ (parseTextQualifiers_safe _ _ _ (arg_facts _ _ _ _ _ (by assumption)).1))
 
+/-- `parse_offset`: a result whose remainder is trimmed, or an error -/
+def SafeO {β} : Out (β × Str) → Prop
+  | .ok (_, r) => trimStart r = r
+  | .err _ => True
+  | .panic _ => False
+
+theorem cursorArg_not_panic (parseI : Str → Option Int) (parseNat : Str → Option Nat) (a : Str) (m : String) : cursorArg parseI parseNat a ≠ .panic m := by
+  unfold cursorArg; split <;> split <;> simp
+
+theorem beginCursor_not_panic (parseI : Str → Option Int) (parseNat : Str → Option Nat) (a : Str) (m : String) :
+    (if a = kWHOLE ∨ a = kALL then (Out.ok (Cursor.b 0) : Out Cursor) else cursorArg parseI parseNat a) ≠ .panic m := by
+  split
+  · simp
+  · exact cursorArg_not_panic parseI parseNat a m
+
+theorem parseOffset_safe (parseI : Str → Option Int) (parseNat : Str → Option Nat) (isDt : Str → Bool) (s : Str) (h : trimStart s = s) :
+    SafeO (parseOffset parseI parseNat isDt s) := by
+  unfold parseOffset
+  repeat' split
+  all_goals first
+    | trivial
+    | exact h
+    | exact (arg_facts _ _ _ _ _ (by assumption)).1
+    | exact absurd (by assumption) (arg_not_panic _ _ _)
+    | exact absurd (by assumption) (cursorArg_not_panic _ _ _ _)
+    | exact absurd (by assumption) (beginCursor_not_panic _ _ _ _)
+
+theorem po_rest {β} (o : Out (β × Str)) (x : β) (r : Str) (hs : SafeO o) (h : o = .ok (x, r)) : trimStart r = r := by
+  subst h; exact hs
+
+theorem po_not_panic {β} (o : Out (β × Str)) (m : String) (hs : SafeO o) : o ≠ .panic m := by
+  intro h; subst h; exact hs
+
+theorem parseCnMore_safe (parseI : Str → Option Int) (parseF : Str → Bool) (isDt : Str → Bool) (parseNat : Str → Option Nat) (w s : Str)
+    (o : Out (Cn × Str)) (h : parseCnMore parseI parseF isDt parseNat w s = some o) : Safe o := by
+  unfold parseCnMore at h
+  repeat' split at h
+  all_goals first
+    | (simp at h; done)
+    | (simp only [Option.some.injEq] at h; subst h; trivial)
+    | (simp only [Option.some.injEq] at h; subst h
+       first
+        | exact absurd (by assumption) (arg_not_panic _ _ _)
+        | exact absurd (by assumption) (pq_not_panic _ _ (parseQualifiers_safe _ _ _ (arg_facts _ _ _ _ _ (by assumption)).1))
+        | exact absurd (by assumption) (po_not_panic _ _ (parseOffset_safe _ _ _ _ (pq_rest _ _ _ _ (parseQualifiers_safe _ _ _ (arg_facts _ _ _ _ _ (by assumption)).1) (by assumption))))
+        | (apply finish_safe
+           first
+            | exact (arg_facts _ _ _ _ _ (by assumption)).1
+            | exact pq_rest _ _ _ _ (parseQualifiers_safe _ _ _ (arg_facts _ _ _ _ _ (by assumption)).1) (by assumption)
+            | exact po_rest _ _ _ (parseOffset_safe _ _ _ _ (pq_rest _ _ _ _ (parseQualifiers_safe _ _ _ (arg_facts _ _ _ _ _ (by assumption)).1) (by assumption))) (by assumption))
+        | (rename_i opstr _ _ _ _ _ value r2 ty hval _ e he
+           obtain ⟨_, quoted, hty⟩ := arg_facts _ _ _ _ _ hval
+           have hnp := parseOp_never_panics parseI parseF isDt opstr value quoted
+           rw [← hty, he] at hnp
+           simp [Out.isPanic] at hnp))
+
+/-- **C09 (no panic in `Constraint::parse`, all modelled keywords).** -/
+theorem parseCnAll_safe (parseI : Str → Option Int) (parseF : Str → Bool) (isDt : Str → Bool) (regexOk : Str → Bool) (parseNat : Str → Option Nat)
+    (s0 : Str) : Safe (parseCnAll parseI parseF isDt regexOk parseNat s0) := by
+  unfold parseCnAll
+  simp only []
+  split
+  · trivial
+  · split
+    · rename_i o ho; exact parseCnMore_safe parseI parseF isDt parseNat _ _ o ho
+    · exact parseCn_safe parseI parseF isDt regexOk s0
+
 /-! ### the query layer -/
 
 theorem split_trimStart (l : Str) : ∃ w, l = w ++ trimStart l ∧ ∀ c ∈ w, isWs c = true := by
@@ -247,7 +314,7 @@ theorem cnLoop_safe (E : Ext) : ∀ (f : Nat) (q : Str) (acc : List Cn), trimSta
     unfold cnLoop
     split
     · exact hq
-    · have hs := parseCn_safe E.parseI E.parseF E.isDt E.regexOk q
+    · have hs := parseCnAll_safe E.parseI E.parseF E.isDt E.regexOk E.parseNat q
       split
       · rename_i c r hc
         unfold Ext.cn at hc
